@@ -85,6 +85,9 @@ func (c *Ctx) N(quick, thorough int) int {
 		}
 		return thorough
 	}
+	if k, err := strconv.Atoi(os.Getenv("VERIF_QUICK_SCALE")); err == nil && k > 1 {
+		return quick * k
+	}
 	return quick
 }
 
